@@ -420,3 +420,80 @@ def c15_3(ctx):
               {'signature': 'C15.3:%s' % name,
                'got': rows and rows[0]['project_id']})
     yield Case('create', case, needed=['created'])
+
+
+# ---------------------------------------------------------------------------
+# C15.4  list endpoints: the unscoped (insecure) query is only ever used for
+# an admin or behind the admin-only rule
+# ---------------------------------------------------------------------------
+@obligation(
+    'C15.4', engine='symx',
+    functions=['mistral.utils.rest_utils:get_all',
+               'mistral.api.controllers.v2.workflow:WorkflowsController.'
+               'get_all',
+               'mistral.api.controllers.v2.execution:ExecutionsController.'
+               'get_all',
+               'mistral.api.controllers.v2.cron_trigger:'
+               'CronTriggersController.get_all',
+               'mistral.api.controllers.v2.task:TasksController.get_all',
+               'mistral.api.controllers.v2.action_execution:'
+               'ActionExecutionsController.get_all'],
+    bounds='every exposed get_all below RootController (enumerated from the '
+           'live controller tree); all_projects, presence of a project_id '
+           'filter naming a foreign project, the caller\'s admin flag and '
+           'the verdict of each policy rule asked are symbolic',
+    stubs=['acl.enforce -> recording stub with symbolic verdict',
+           'db-api facade implementation -> recorder (keyword arguments of '
+           'the first query are kept)', 'pecan.request stub'],
+    outside='Keystone; what the secured query itself admits (C15.1)')
+def c15_4(ctx):
+    """a list request reaches the database with insecure=True (no project
+    scoping) only if the caller is an admin or an admin-only
+    <resource>:list:all_projects rule was asked and granted"""
+    boot()
+    import inspect
+    from vt.harness import C16
+    eps = [(p, c, f) for p, c, f in C16.enumerate_endpoints()
+           if p.endswith('.get_all')]
+    rules = C16.registered_rules()
+    admin_only = {n for n, r in rules.items()
+                  if str(r.check) in ('rule:admin_only', 'is_admin:True')}
+
+    def case():
+        path, ctrl, inner = choice('endpoint', eps)
+        sig_ = inspect.signature(inner)
+        # (wsme turns the textual defaults into lists before the call)
+        over = {k: v for k, v in (('sort_keys', ['created_at']),
+                                  ('sort_dirs', ['asc']), ('fields', []))
+                if k in sig_.parameters}
+        if 'all_projects' in sig_.parameters:
+            over['all_projects'] = bool(fresh_bool('all_projects'))
+        if 'project_id' in sig_.parameters:
+            if fresh_bool('foreign_project_filter'):
+                over['project_id'] = 'proj-b'
+                reach('project-filter')
+        is_admin = bool(fresh_bool('is_admin'))
+        allow1 = bool(fresh_bool('rule1_allowed'))
+        allow2 = bool(fresh_bool('rule2_allowed'))
+        log, outcome = C16._run_endpoint(path, ctrl, inner,
+                                         [allow1, allow2], over,
+                                         is_admin=is_admin)
+        reach('ran')
+        s = 'C15.4:%s' % path
+        granted = [e[1] for e in log if e[0] == 'enforce' and e[2]]
+        for e in log:
+            if e[0] != 'db':
+                continue
+            kw = e[2] if len(e) > 2 else {}
+            reach('query')
+            if kw.get('insecure'):
+                reach('insecure-query')
+                check(is_admin or any(
+                    n.endswith(':list:all_projects') or n in admin_only
+                    for n in granted),
+                    'unscoped-listing-for-a-non-admin',
+                    {'signature': s + ':insecure', 'asked': granted,
+                     'request': over, 'query': {k: repr(v)[:40]
+                                                for k, v in kw.items()}})
+    yield Case('list-endpoints', case,
+               needed=['ran', 'query', 'insecure-query', 'project-filter'])
